@@ -26,7 +26,7 @@ ASSUMPTIONS = ['the ungated twin (same construction code, no clockDriver assignm
 BOUNDS = {'quick': 'blocks Reg(w=2), Counter(w=2), TReg, DelayLine(2), ClockSyncFSM; placements self/parent/grand/nested/nested with derived base/'
                    'self with a clockable sibling under the same parent (both creation orders)/the system driver itself; enable from input / '
                    'from a register inside the gated domain / from a register in another domain / from combinational cells inside the gated '
-                   'hierarchy / 2 bits wide; one or two gated domains',
+                   'hierarchy / 2 bits wide / attached to the driver after the simulator exists; one or two gated domains',
           'thorough': 'same plus three-domain designs for the five small blocks, and width-2 DelayLine, Stack, SynchronousMemory under gating (one and two domains)'}
 
 BLOCKS = ['Reg', 'Counter', 'TReg', 'DelayLine', 'ClockSyncFSM']
